@@ -26,7 +26,7 @@ KW = "flow"
 
 # --------------------------------------------------------------------------- strategies
 @st.composite
-def spd_spec(draw, kinds=("iso", "diag", "full"), lo=0.1, hi=10.0, het=False):
+def spd_spec(draw, kinds=("iso", "diag", "full"), lo=0.1, hi=10.0, het=False, mags=False):
     kind = draw(st.sampled_from(list(kinds)))
     if kind == "iso":
         v = draw(_f(lo, hi))
@@ -45,7 +45,79 @@ def spd_spec(draw, kinds=("iso", "diag", "full"), lo=0.1, hi=10.0, het=False):
     if het and draw(st.booleans()):
         s["het_amp"] = draw(_f(1.5, 20.0))
         s["het_seed"] = draw(st.integers(0, 2**31 - 1))
+    if mags and draw(st.integers(0, 2)) == 0:
+        # magnitude of the tensor (SI permeabilities ~1e-18..1e-9, conductivities up to 1e6): "mag" multiplies K
+        s["mag"] = draw(st.sampled_from(K_MAGS))
     return s
+
+
+K_MAGS = [1e-18, 1e-15, 1e-12, 1e-9, 1e-6, 1e-3, 1e3, 1e6]
+LENGTH_SCALES = [1e-6, 1e-5, 1e-4, 1e-3, 1e-2, 1e2, 1e3, 1e4]
+GRADING = [1.0, 1.0, 1e-2, 1e-4, 1e-5]
+
+
+@st.composite
+def with_length_scale(draw, gs):
+    """Length-scale classes on top of a gen/grids.py grid spec (returned modified):
+    * "scale": the whole grid multiplied by a unit factor 1e-6..1e4 (key "scale", applied by build_grid before
+      the rigid motion; the rigid shift is scaled too so that coordinates stay commensurate with the cell size);
+    * "graded" (tensor grids only): every grid-line spacing multiplied by a factor drawn from {1, 1e-2, 1e-4, 1e-5},
+      at least one of them small: micrometre-scale cells next to O(1) cells (key "graded": true)."""
+    mode = draw(st.sampled_from(["none", "none", "none", "scale", "scale", "graded"]))
+    if mode == "graded" and gs["kind"] != "tensor":
+        mode = "scale"
+    if mode == "scale":
+        sc = draw(st.sampled_from(LENGTH_SCALES))
+        gs["scale"] = sc
+        if gs.get("rigid"):
+            gs["rigid"]["shift"] = [v * sc for v in gs["rigid"]["shift"]]
+    elif mode == "graded":
+        # every axis keeps at least one unscaled spacing, so the extents of the domain stay commensurate (map_grid
+        # documents a relative tolerance of 1e-5 below which an extent counts as zero); axes with one cell are left alone
+        coords, any_small = [], False
+        for c in gs["coords"]:
+            steps = np.diff(np.asarray(c, dtype=float))
+            mult = np.ones(steps.size)
+            if steps.size >= 2:
+                mult = np.array([draw(st.sampled_from(GRADING)) for _ in steps])
+                if np.all(mult < 1):
+                    mult[-1] = 1.0
+                any_small = any_small or bool(np.any(mult < 1e-3))
+            coords.append([float(c[0])] + [float(v) for v in (c[0] + np.cumsum(steps * mult))])
+        if not any_small:
+            ax = [i for i, c in enumerate(coords) if len(c) >= 3]
+            if ax:
+                c = np.asarray(gs["coords"][ax[0]], dtype=float)
+                mult = np.r_[1e-4, np.ones(c.size - 2)]
+                coords[ax[0]] = [float(c[0])] + [float(v) for v in (c[0] + np.cumsum(np.diff(c) * mult))]
+                any_small = True
+        if any_small:
+            gs["coords"] = coords
+            gs["graded"] = True
+            gs["pamp"], gs["pseed"] = 0.0, 0
+    return gs
+
+
+def conditioning_factor(gs) -> float:
+    """Tolerance multiplier for quantities that go through MPFA's local inversions on graded grids: the local
+    systems couple cells whose sizes differ by the grading ratio r = max spacing / min spacing, and their rounding
+    error grows with r (observed ~ 100 r eps).  1 for r <= 10 (all non-graded grids), r / 10 otherwise."""
+    if not gs.get("graded"):
+        return 1.0
+    steps = np.concatenate([np.diff(np.asarray(c, dtype=float)) for c in gs["coords"]])
+    return max(1.0, float(steps.max() / steps.min()) / 10.0)
+
+
+def length_labels(gs):
+    out = []
+    if gs.get("graded"):
+        out.append("graded")
+    return out
+
+
+def tensor_labels(ts):
+    m = ts.get("mag")
+    return [] if not m else (["K-tiny"] if m < 1 else ["K-huge"])
 
 
 @st.composite
@@ -63,17 +135,19 @@ def bc_spec(draw, modes=("mixed", "mixed", "mixed", "all_dir", "one_dir", "all_n
 
 
 @st.composite
-def field_spec(draw, constant=False):
+def field_spec(draw, constant=False, length=1.0):
+    """p = c + a.x; `length` = unit factor of the grid: the gradient is a / length so that p varies by O(1)
+    over the domain whatever the length unit."""
     c = draw(_f(-3, 3))
     if constant:
         return {"c": c, "a": [0.0, 0.0, 0.0]}
-    return {"c": c, "a": [draw(_f(-2, 2)) for _ in range(3)]}
+    return {"c": c, "a": [draw(_f(-2, 2)) / length for _ in range(3)]}
 
 
 # --------------------------------------------------------------------------- builders
 def tensor_matrix(ts) -> np.ndarray:
     """The constant 3x3 SPD matrix of a tensor spec (without heterogeneity)."""
-    D = np.diag(np.asarray(ts["eig"], dtype=float))
+    D = np.diag(np.asarray(ts["eig"], dtype=float)) * float(ts.get("mag") or 1.0)
     if ts["kind"] == "full":
         Q = rotation_matrix(ts["axis"], ts["angle"])
         K = Q @ D @ Q.T
@@ -199,10 +273,10 @@ def axis_aligned_lattice(gs) -> bool:
 
 
 @st.composite
-def reuse_spec(draw, gs, tensor_kinds=("iso", "diag", "full"), het=False):
+def reuse_spec(draw, gs, tensor_kinds=("iso", "diag", "full"), het=False, mags=False):
     moves = ["none", "scale", "scale"] + (["respace", "respace"] if axis_aligned_lattice(gs) else [])
     move = draw(st.sampled_from(moves))
-    k2 = draw(st.one_of(st.none(), spd_spec(kinds=tensor_kinds, het=het)))
+    k2 = draw(st.one_of(st.none(), spd_spec(kinds=tensor_kinds, het=het, mags=mags)))
     b2 = draw(st.one_of(st.none(), bc_spec()))
     if move == "none" and k2 is None and b2 is None:
         move = "scale"
